@@ -13,6 +13,7 @@
  *   static const struct tm *ref_localtime(u32 stamp);                   local broken-down time of a stamp
  * With REF_MARKERS defined (composition harnesses) every column field is replaced by one marker,
  *   static void ref_mark(u8 field, const void *member, u64 value);      field REF_F_*, the member shown or a footer value
+ * (and the heading and separator lines by one marker naming the command)
  * so that the row / footer ASSEMBLY (order of fields, separating blanks, line ends, blank fill, totals) is compared
  * while the fields themselves are compared column by column elsewhere.
  * Token conventions are those of out_model.h: kind 'd' signed decimal, 'u' unsigned decimal, 'x' hex; flags 1 = left-justified, 2 = zero-padded; width 0 = none;
@@ -46,6 +47,7 @@
 
 enum { REF_L = 0, REF_LV = 1, REF_V = 2, REF_VV = 3 };
 enum { REF_F_PERM = 1, REF_F_OWNER, REF_F_PACKED, REF_F_SIZE, REF_F_RATIO, REF_F_METHOD, REF_F_STAMP, REF_F_FULLSTAMP, REF_F_NAME, REF_F_NAME2, REF_F_LEVEL,
+       REF_F_HEADING = 15, REF_F_SEPARATOR = 16,
        REF_F_TOTAL_LABEL = 20, REF_F_TOTAL_COUNT, REF_F_TOTAL_PACKED, REF_F_TOTAL_SIZE, REF_F_TOTAL_RATIO, REF_F_TOTAL_STAMP, REF_F_TOTAL_FULLSTAMP };
 #ifdef REF_MARKERS
 #define REF_ROW_FIELD(id, h, call)   ref_mark(id, (const void *) (h), 0)
@@ -276,12 +278,12 @@ static void ref_listing(int cmd, int quiet, LHAFileHeader *const *members, unsig
 {
 	unsigned i;
 	u32 packed_total = 0, size_total = 0;
-	if (quiet < 2) { ref_heading(cmd); ref_separator(cmd); }
+	if (quiet < 2) { REF_FOOT_FIELD(REF_F_HEADING, cmd, ref_heading(cmd)); REF_FOOT_FIELD(REF_F_SEPARATOR, cmd, ref_separator(cmd)); }
 	for (i = 0; i < n; ++i) {
 		ref_row(cmd, members[i], now);
 		packed_total += (u32) members[i]->compressed_length;
 		size_total += (u32) members[i]->length;
 	}
-	if (quiet < 2) { ref_separator(cmd); ref_footer(cmd, n, packed_total, size_total, archive_stamp, now); }
+	if (quiet < 2) { REF_FOOT_FIELD(REF_F_SEPARATOR, cmd, ref_separator(cmd)); ref_footer(cmd, n, packed_total, size_total, archive_stamp, now); }
 }
 #endif
